@@ -88,6 +88,9 @@ var c15Fails = []c15Fail{
 	{"partial-failing-inside-a-helper-block", `<%= partial("pblk") %>`, false, false, 1, true},
 	{"partial-with-layout-failing-inside-a-helper-block", `<%= partial("pblk", {"layout": "play"}) %>`, false, false, 1, true},
 	{"silent-let-of-partial-failing-inside-a-helper-block", "<% let q =\n partial(\"pblk\") %>", false, true, 0, true},
+	// a stored contentFor block fails when contentOf runs it: the failing statement is the one inside the block
+	{"stored-block-failing-when-used", "<% contentFor(\"cfail\") { %>a\n<%= nope %><% } %>\nb\n<%= contentOf(\"cfail\") %>", false, true, 2, false},
+	{"stored-block-failing-in-a-nested-helper-block", "<% contentFor(\"cfail2\") { %>a\n\n<%= blk() { %><%= 1 / 0 %><% } %><% } %>\nb\n<%= contentOf(\"cfail2\", {\"k\": 1}) %>", false, true, 3, false},
 	{"illegal-number-then-newline", "<%= 1.2.3\n %>", true, true, 1, false},
 	{"illegal-leading-dot-number-then-newline", "<% let q = .5.5\n %>", true, true, 1, false},
 	{"syntax-error-after-multiline-string", "<%= foo(1, \"a\nb\" %>", true, true, 1, false},
@@ -151,7 +154,7 @@ func init() {
 			return s
 		},
 		Run:  c15Run,
-		Rule: "templates = every sequence of <=3 (4 thorough) preceding items from 14 (text lines, CRLF, single/multi-line tags, # comment lines, multi-line double- and back-quoted strings, multi-line comment tag, output tag, if/for blocks spanning lines, escaped tag) followed by one failing statement of 51 kinds (incl. partial calls whose partial fails on a line of its own, at its top level or inside a helper's block: the caller's error leads with the line of the call and only that number shifts; (failures reported at a multi-line string token) (10 runtime faults, 14 syntax-error families incl. un-parsable numbers, break outside a loop and argument lists cut by the closing tag, tokens directly followed by a newline, failures after a multi-line user function was called in the same statement, 2 multi-line failing tags, failures in the header of a statement whose block spans several tags and lines (if condition, non-iterable for, failing block helper - silent and emitting), unterminated string at EOF) at top level or inside if / else / for / fn (called later) / helper block / for+if bodies, followed by trailing text; then shifted by k in {1,2,3} leading newlines. Oracle: (i) error starts with 'line N:'; (ii) N is the 1-based line on which the failing tag begins (within the tag's lines when it spans several / within the string's lines for an unterminated string); (iii) the shifted template's error equals the original with every 'line n:' replaced by 'line n+k:'. Non-trivial: at least one newline precedes the failing tag.",
+		Rule: "templates = every sequence of <=3 (4 thorough) preceding items from 14 (text lines, CRLF, single/multi-line tags, # comment lines, multi-line double- and back-quoted strings, multi-line comment tag, output tag, if/for blocks spanning lines, escaped tag) followed by one failing statement of 53 kinds (incl. a stored contentFor block failing when contentOf runs it: the line of the statement inside the block) (incl. partial calls whose partial fails on a line of its own, at its top level or inside a helper's block: the caller's error leads with the line of the call and only that number shifts; (failures reported at a multi-line string token) (10 runtime faults, 14 syntax-error families incl. un-parsable numbers, break outside a loop and argument lists cut by the closing tag, tokens directly followed by a newline, failures after a multi-line user function was called in the same statement, 2 multi-line failing tags, failures in the header of a statement whose block spans several tags and lines (if condition, non-iterable for, failing block helper - silent and emitting), unterminated string at EOF) at top level or inside if / else / for / fn (called later) / helper block / for+if bodies, followed by trailing text; then shifted by k in {1,2,3} leading newlines. Oracle: (i) error starts with 'line N:'; (ii) N is the 1-based line on which the failing tag begins (within the tag's lines when it spans several / within the string's lines for an unterminated string); (iii) the shifted template's error equals the original with every 'line n:' replaced by 'line n+k:'. Non-trivial: at least one newline precedes the failing tag.",
 		Bound: func(th bool) string {
 			if th {
 				return "<=4 preceding items, 7 placements, shifts 1..3"
